@@ -3,7 +3,7 @@
 set -u
 patch=$1; prop=$2; tier=${3:-quick}
 git -C /repo apply "$patch" || { echo "patch does not apply"; exit 3; }
-VERIF_EVIDENCE_DIR=/tmp/verif_mut_evidence /verif/check "$prop" "$tier"; rc=$?
+VERIF_EVIDENCE_DIR=/tmp/verif_mut_evidence VERIF_REPLAY_DIR=/tmp/verif_mut_replays /verif/check "$prop" "$tier"; rc=$?
 git -C /repo checkout -- .
 echo "mutcheck exit=$rc"
 exit $rc
